@@ -131,6 +131,13 @@ interpolated into rich markup). The model is a model of the repaired tree.
   and D19 is keyed on that call site, so the same defect reached through any generator is the same finding while a hang
   anywhere else is still a new violation.
 
+* C09 (`vp check` of session 3, seed 1, on a loaded copy of the sandbox): the deep-indentation probe of the known finding D13 ran out of
+  its first time limit and — probes being exempt from the 8× retry — was reported as a hang at a new call site. Only the probe that
+  is MEANT to run out of time (`$ENTER 10^10`, D19) is exempt now; every other time-out gets the retry in a fresh process.
+* Same session, 6-seed sweep: C02 took two minutes for two seeds because the general program stream drew evaluated loop counts in the
+  thousands (nested) and `$ENTER 2^70` (D19 under another family): time-outs, not alarms, but the quick tier must stay quick —
+  evaluated counts of the general stream are reduced modulo 5 and C02 leaves the D19 probe to C09.
+
 ### 10.5 Seeded changes (`seeded/<id>/`: patch.diff, demo.py, meta.json) and the checks that catch them
 
 Round 1 (`-a`, `-b`), round 2 (`-c`, `-d`), round 3 (`-e`, `-f`), round 4 (`-g`, `-h`), round 5 (`-i`, `-j`) and round 6 (`-k`, `-l`); (round 4: the sub-agents were told how the harness
